@@ -47,8 +47,9 @@ class Hostile(Layout):
 
     COMMENT_TEXTS = ["c", "lda #1", "x: {", "}", ".byte 1, 2", "\"quote", "* = $1000", "a /* b", "é€", "", "  ", ".if 0 {", "else"]
 
-    def __init__(self, rng, crlf=None, comments=True, case=True, multiline_block=True, else_comments=True):
+    def __init__(self, rng, crlf=None, comments=True, case=True, multiline_block=True, else_comments=True, same_line=0.1):
         super().__init__(rng, rng.random() < 0.3 if crlf is None else crlf)
+        self.same_line = same_line
         self.comments = comments
         self.do_case = case
         self.multiline_block = multiline_block
@@ -132,6 +133,14 @@ class Hostile(Layout):
                 out = " "
             return out
         # stmt
+        if self.same_line and rng.random() < self.same_line and self._joinable(nxt):
+            # several statements on one line / one-line blocks: only blanks (and a same-line block comment) in between
+            out = self._blanks(1)
+            if self.comments and self.else_comments and rng.random() < 0.15:
+                out += self._block_comment(False) + self._blanks(1)
+                self._note(kind, "same-line-block-comment")
+            self._note(kind, "same-line")
+            return out
         out = self._blanks(0)
         if self.comments and rng.random() < 0.15:
             out += self._line_comment()
@@ -153,6 +162,25 @@ class Hostile(Layout):
             out += self._block_comment(False) + " "
             self._note(kind, "leading-block-comment")
         return out
+
+    @staticmethod
+    def _joinable(nxt):
+        """May the statement gap be rendered without a newline?  Conservative: the next statement starts with a mnemonic or
+        a directive (or is the closing brace), and the previous token cannot swallow it (an accumulator-or-operand shift, the
+        anonymous -/+ symbols and `*` could continue as an expression)."""
+        ncls, ntext = nxt.get("next_cls"), nxt.get("next_text")
+        pcls, ptext = nxt.get("prev_cls"), str(nxt.get("prev_text") or "")
+        if pcls is None or ncls is None:
+            return False
+        if not (ncls in ("mn", "dir") or ntext == "}"):
+            return False
+        if pcls == "mn" and ptext.lower() in ("asl", "lsr", "rol", "ror"):
+            return False
+        if pcls == "raw" or ncls == "raw":
+            return False
+        if ptext in ("-", "+", "*") or ptext.endswith(("-", "+", "*")):
+            return False
+        return True
 
     def case(self, text, cls):
         if not self.do_case or cls not in ("mn", "dir", "reg", "kw", "hex", "bool"):
@@ -550,6 +578,10 @@ class Renderer:
                     nxt["next_cls"] = nt[4]
                     nxt["next_text"] = t if isinstance(t, str) else "<num>"
                     nxt["stmt"] = nt[6]
+                pt = next((x for x in reversed(items[:i]) if x[0] == "tok"), None)
+                if pt is not None:
+                    nxt["prev_cls"] = pt[4]
+                    nxt["prev_text"] = pt[1] if isinstance(pt[1], str) else "<num>"
                 text = lay.gap(it[1], it[3], nxt)
                 out.append(text)
                 off += len(text.encode("utf8"))
